@@ -112,7 +112,7 @@ def judge_action(case, obs):
             if "url" in judge:
                 bad.append(("url", "expected redirect %s observed url=%r code=%r location=%r redirected=%r" %
                             (e, obs.get("url"), obs.get("code"), obs.get("location"), obs.get("redirected"))))
-            else:
+            elif e != o:
                 drift.append("url")
     elif "rawq" in exp and exp["rawq"] != obs.get("rawq") and not bad:
         drift.append("rawq")
@@ -200,14 +200,261 @@ def check_c49(ctx):
     run_actions(ctx, cases, "C49")
 
 
+# --------------------------------------------------------------------------- C52
+def _vary_tokens(lines):
+    out = set()
+    for ln in lines or []:
+        for t in ln.split(","):
+            t = t.strip().lower()
+            if t:
+                out.add(t)
+    return out
+
+
+def judge_cors(case, obs):
+    bad, drift = [], []
+    P, M = case["expP"], case["expM"]
+    if obs.get("panic"):
+        return [("panic", obs["panic"][:600])], drift
+    if not obs.get("loaded"):
+        # a rule that cannot be loaded grants nothing: only the mechanism model says which rules load
+        if M["loads"]:
+            drift.append("rejected")
+        return bad, drift
+    if not M["loads"]:
+        drift.append("loaded")
+    ac = {k.lower(): v for k, v in (obs.get("ac") or {}).items()}
+    acao = ac.get("access-control-allow-origin", "")
+    acac = ac.get("access-control-allow-credentials", "")
+    if P["allowed"]:
+        if acao != P["acao"]:
+            bad.append(("acao", "allowed origin: expected Access-Control-Allow-Origin %r observed %r" % (P["acao"], acao)))
+    elif ac:
+        bad.append(("leak", "origin not allowed by the rule but the response carries %s" % json.dumps(ac, sort_keys=True)))
+    if acao == "*" and acac.lower() == "true":
+        bad.append(("star-cred", "Access-Control-Allow-Origin: * together with Access-Control-Allow-Credentials: true"))
+    vt = _vary_tokens(obs.get("vary"))
+    keep = {t.lower() for t in P["keep"]}
+    if not keep <= vt:
+        bad.append(("vary-dropped", "Vary before %s after %s" % (sorted(keep), obs.get("vary"))))
+    if P["needvary"] and not ({"origin", "*"} & vt):
+        bad.append(("vary-origin-missing", "granted value depends on Origin but Vary after the filters is %s (before: %s)"
+                    % (obs.get("vary"), case["req"]["vary"])))
+    if not bad:
+        others = sorted(k for k in (obs.get("ac") or {}) if k.lower() not in
+                        ("access-control-allow-origin", "access-control-allow-credentials"))
+        if acac != M["acac"] or others != sorted(M["other"]) or obs.get("preflight") != M["preflight"] \
+                or (obs.get("vary") or []) != M["vary"]:
+            drift.append("headers")
+    return bad, drift
+
+
+def run_cors(ctx, cases, label=""):
+    if not cases:
+        raise vlib.MachineryError("no cases (%s)" % label)
+    cases.sort(key=lambda c: json.dumps(c["rule"], sort_keys=True))
+    for i, c in enumerate(cases):
+        c["id"] = i + 1
+    res = ctx.harness("mods1", ["cors"], cases=cases, timeout=900)
+    crash = [r for r in res if "_harness_exit" in r or "_bad_case" in r]
+    if crash:
+        raise vlib.MachineryError("mods1 cors harness failed: %s" % str(crash[:2])[:1500])
+    by = {r["id"]: r["obs"] for r in res if "id" in r}
+    if len(by) != len(cases):
+        raise vlib.MachineryError("mods1 cors: %d results for %d cases" % (len(by), len(cases)))
+    drifts = {}
+    nbad = 0
+    for c in cases:
+        obs = by[c["id"]]
+        bad, drift = judge_cors(c, obs)
+        ctx.count([c["rule"], c["req"]], nontrivial=c["req"]["origin"] != "")
+        for what, det in bad:
+            nbad += 1
+            sig = "cors/%s/%s/%s/%s/%s" % (c["form"], c["oclass"], c["kind"], c["vclass"], what)
+            rc = {k: c[k] for k in ("form", "oclass", "kind", "vclass", "rule", "req", "expP", "expM")}
+            ctx.report(sig, "rule %s request %s: %s" % (json.dumps(c["rule"]), json.dumps(c["req"]), det),
+                       case=rc, harness="mods1", cmd="cors")
+        for f in drift:
+            k = "%s/%s/%s/%s" % (c["form"], c["kind"], c["vclass"], f)
+            drifts[k] = drifts.get(k, 0) + 1
+    for c in cases[len(cases) // 3:len(cases) // 3 + 1] + cases[-1:]:
+        ctx.sample({"rule": c["rule"], "request": c["req"], "expected": c["expP"], "observed": by[c["id"]]})
+    if drifts:
+        ctx.drift("action=Apply %d case classes differ from the mechanism model, e.g. %s" % (len(drifts), sorted(drifts.items())[:6]))
+    ctx.traces(len(cases))
+    return nbad
+
+
+def check_c52(ctx):
+    g = ctx.tlc_must_pass(SPEC, "GenCors", "Cors_MC.cfg", timeout=900)
+    if not g.cases or len(g.cases) != g.distinct:
+        raise vlib.MachineryError("GenCors printed %d cases for %d states" % (len(g.cases), g.distinct))
+    ctx.cov["exhaustive"] = True
+    ctx.cov["constants"]["Cors"] = {"origins": "allowed, allowed2, other, suffix/prefix look-alikes, null, garbage, absent",
+                                    "rule forms": "one, two, *, %origin, null, %origin+one", "credentials": "both",
+                                    "optional lists": "all set / none set", "request": "GET, preflight, bare OPTIONS",
+                                    "vary before": "none, *, Accept-Encoding, Origin, origin, list with/without Origin, two lines"}
+    ctx.cov["rule"] = ("cases = every state of Cors.tla (origin class x rule form x credentials x optional lists x request "
+                       "kind x pre-existing Vary); the rule is loaded by mod_cors' reload handler, the request is parsed by "
+                       "bfe_http and passes the filters the module registered at HandleFoundProduct and (with a backend "
+                       "response carrying the pre-existing Vary) HandleReadResponse; obligations: ACAO exactly for allowed "
+                       "origins with the configured value, no Access-Control-* for others, never * with credentials, Vary "
+                       "keeps its values and contains Origin (or *) when the granted value depends on the Origin. "
+                       "distinct = cases with an Origin header.")
+    ctx.assumptions += ["Vary is not judged when nothing is granted (whether a refusal must vary on Origin is left open)",
+                        "which rule files the loader refuses is Layer M; '*' with credentials is judged on responses only"]
+    run_cors(ctx, g.cases, "C52")
+
+
+# --------------------------------------------------------------------------- C53
+TICK_US = 40000          # scaled schedules: one tick = 40 ms
+REAL_TICK_US = 300000    # unscaled schedules (CheckPeriod = StayPeriod = 1 s): boundaries 100 ms off the tick grid
+SLACK_US = 3000          # TracePrison: undecided zone on either side of a decision boundary
+WIDE_US = 1000           # an arrival whose call took longer than this tells nothing
+
+
+def prison_case(th, p, j, arr, kind="scaled"):
+    if kind == "real":
+        return {"th": th, "kind": "real", "cp_us": 1000000, "sp_us": 1000000, "tick_us": REAL_TICK_US, "arr": arr}
+    return {"th": th, "kind": "scaled", "cp_us": p * TICK_US + TICK_US // 2, "sp_us": j * TICK_US,
+            "tick_us": TICK_US, "arr": arr}
+
+
+def seeded_schedules(ctx, num, stream, maxt=40):
+    """Seeded driver beyond the TLC-simulated schedules: bursts, silences and probes around the
+    jail, long enough to see expiry, re-admission and a second jailing."""
+    import random
+    rnd = random.Random(ctx.seed * 104729 + stream)
+    out = []
+    for _ in range(num):
+        th = rnd.choice([0, 1, 1, 2, 2, 3])
+        nk = rnd.randint(1, 3)
+        arr = []
+        t = 0
+        while t <= maxt and len(arr) < 60:
+            x = rnd.random()
+            if x < 0.30:                      # burst of one key in one tick
+                k = rnd.randint(1, nk)
+                arr += [{"k": k, "t": t}] * rnd.randint(1, th + 2)
+            elif x < 0.65:
+                arr.append({"k": rnd.randint(1, nk), "t": t})
+            t += rnd.choice([0, 1, 1, 1, 2, 3, 4, 6, 7])
+        if arr:
+            out.append((th, arr))
+    return out
+
+
+def run_prison(ctx, cases, label=""):
+    if not cases:
+        raise vlib.MachineryError("no schedules (%s)" % label)
+    for i, c in enumerate(cases):
+        c["id"] = i + 1
+    res = ctx.harness("mods1", ["prison"], cases=cases, timeout=600)
+    crash = [r for r in res if "_harness_exit" in r or "_bad_case" in r]
+    if crash:
+        raise vlib.MachineryError("mods1 prison harness failed: %s" % str(crash[:2])[:1500])
+    events = [r for r in res if "ev" in r]
+    narr = sum(len(c["arr"]) for c in cases)
+    if len(events) != narr + len(cases):
+        raise vlib.MachineryError("mods1 prison: %d events for %d arrivals" % (len(events), narr))
+    by_id = {c["id"]: c for c in cases}
+    nbad = 0
+    for e in events:
+        info = e.pop("info", None)
+        if info:
+            nbad += 1
+            c = by_id[e["cid"]]
+            ctx.report("prison/%s/th%d/%s" % ("panic" if info.startswith("panic") else "result", c["th"], c["kind"]),
+                       info[:800], case={k: c[k] for k in c if k != "id"}, harness="mods1", cmd="prison")
+    trace = "".join(json.dumps(e, separators=(",", ":")) + "\n" for e in events)
+    r = ctx.tlc(SPEC, "TracePrison", "Prison_Trace.cfg", mode="trace", timeout=900, count=False,
+                defines={"S": SLACK_US, "W": WIDE_US}, extra_files={"trace.ndjson": trace})
+    rep = [c for c in r.cases if c.get("done")]
+    if not r.ok or not rep or rep[0]["consumed"] != len(events):
+        raise vlib.MachineryError("trace validation did not complete (%s): %s %s" %
+                                  (label, r.error or r.violation, r.out[-600:]))
+    rep = rep[0]
+    ctx.traces(len(cases))
+    for b in rep["bad"]:
+        nbad += 1
+        c = by_id[b["cid"]]
+        ev = events[b["l"] - 1]
+        mine = [e for e in events if e["cid"] == b["cid"] and e["ev"] == "arr"]
+        upto = mine.index(ev) + 1
+        sig = "prison/%s/th%d/%s" % (b["why"], c["th"], c["kind"])
+        det = ("Threshold=%d CheckPeriod=%dus StayPeriod=%dus; arrivals of the case up to the failing one "
+               "(key, lo us, hi us, denied): %s" % (c["th"], c["cp_us"], c["sp_us"],
+                                                    [(e["k"], e["lo"], e["hi"], e["deny"]) for e in mine[:upto]][-14:]))
+        rc = {k: c[k] for k in c if k != "id"}
+        rc["arr"] = c["arr"][:upto]
+        ctx.report(sig, det, case=rc, harness="mods1", cmd="prison")
+    for c in cases:
+        ctx.count([c["th"], c["kind"], c["arr"]], nontrivial=len(c["arr"]) > c["th"])
+    tot = rep["free"] + rep["decided"]
+    ctx.cov.setdefault("prison_events", {"decided": 0, "either_way": 0})
+    ctx.cov["prison_events"]["decided"] += rep["decided"]
+    ctx.cov["prison_events"]["either_way"] += rep["free"]
+    if tot and rep["decided"] * 4 < tot and len(cases) > 20:
+        raise vlib.MachineryError("only %d of %d recorded arrivals were decisive (machine too loaded for the real-time "
+                                  "driver?)" % (rep["decided"], tot))
+    if rep["drift"]:
+        ctx.drift("action=Arrive %d recorded verdicts differ from the counter/jail mechanism model, e.g. %s" %
+                  (len(rep["drift"]), [events[d["l"] - 1] for d in rep["drift"][:2]]))
+    c = cases[0]
+    ctx.sample({"schedule": c, "recorded": [e for e in events if e["cid"] == c["id"]][:10]})
+    return nbad
+
+
+def check_c53(ctx):
+    q = ctx.tier == "quick"
+    mcs = [(2, 1, 0, 9, 5), (2, 2, 1, 9, 5), (2, 0, 1, 9, 5)] if q else \
+          [(2, th, s, 12, 6) for th in (0, 1, 2) for s in (0, 1)] + [(1, th, s, 17, 7) for th in (0, 1, 2) for s in (0, 1)]
+    for nk, th, s, maxt, maxarr in mcs:
+        d = {"NKEYS": nk, "TH": th, "P": 3, "J": 2, "S": s, "MAXT": maxt, "MAXARR": maxarr}
+        ctx.cov["constants"]["Prison_MC(keys=%d,th=%d,slack=%d)" % (nk, th, s)] = d
+        ctx.tlc_must_pass(SPEC, "Prison", "Prison_MC.cfg", defines=d, timeout=2400)
+    cases = []
+    for th in (0, 1, 2):
+        d = {"NKEYS": 2, "TH": th, "P": 3, "J": 2, "MAXT": 26, "MAXARR": 16}
+        g = ctx.tlc(SPEC, "GenPrison", "Prison_Gen.cfg", mode="sim", defines=d, sim_num=25 if q else 150,
+                    sim_depth=60, count=False, timeout=600)
+        if not g.ok or not g.cases:
+            raise vlib.MachineryError("GenPrison failed: %s %s" % (g.error or g.violation, g.out[-500:]))
+        cases += [prison_case(c["th"], c["p"], c["j"], c["arr"]) for c in g.cases if c["arr"]]
+    cases += [prison_case(th, 3, 2, arr) for th, arr in seeded_schedules(ctx, 60 if q else 400, 1)]
+    # a few schedules with the periods exactly as the rule file gives them (seconds): binds the unit conversion
+    cases += [prison_case(th, 3, 3, arr, kind="real") for th, arr in seeded_schedules(ctx, 12 if q else 60, 2, maxt=26)]
+    ctx.cov["constants"]["trace"] = {"tick_us": TICK_US, "CheckPeriod_us": 3 * TICK_US + TICK_US // 2, "StayPeriod_us": 2 * TICK_US,
+                                     "slack_us": SLACK_US, "wide_us": WIDE_US, "real": "CheckPeriod = StayPeriod = 1 s, tick 300 ms"}
+    ctx.cov["rule"] = ("TLC checks exhaustively that the counter/jail mechanism satisfies Layer P (never denied with <= "
+                       "Threshold arrivals in the last CheckPeriod; denied from the (Threshold+1)-th arrival of a fresh "
+                       "key's first period until first arrival + CheckPeriod + StayPeriod; re-admitted after expiry; per "
+                       "key). cases = TLC-simulated and seeded arrival schedules played in real time against mod_prison "
+                       "(rule file loaded by the module, prisonHandler invoked through the HandleFoundProduct callback "
+                       "list), recorded (key, time before, time after, verdict) validated by TLC against Layer P with a "
+                       "slack zone around every decision boundary. distinct = schedules with more arrivals than Threshold.")
+    ctx.assumptions += ["wall clock: every clock reading of one prisonHandler call lies between the two readings the "
+                        "harness takes around it; calls longer than %d us and arrivals within %d us of a decision "
+                        "boundary are matched either way" % (WIDE_US, SLACK_US),
+                        "scaled schedules set checkPeriodNs/stayPeriodNs through an overlay setter after the real loader "
+                        "ran; the seconds->ns conversion is covered by the unscaled schedules"]
+    if ctx.tier != "quick" or True:
+        run_prison(ctx, cases, "C53")
+
+
 # --------------------------------------------------------------------------- registry
-PROPS = {"C49": check_c49}
+PROPS = {"C49": check_c49, "C52": check_c52, "C53": check_c53}
 
 
 def replay(ctx, pid, rep):
     case = rep["case"]
     if pid == "C49":
         run_actions(ctx, [dict(case)], "replay")
+    elif pid == "C52":
+        run_cors(ctx, [dict(case)], "replay")
+    elif pid == "C53":
+        # real time: play the schedule a few times side by side
+        run_prison(ctx, [dict(case) for _ in range(5)], "replay")
     rc = ctx.finish()
     print("replay: %s" % ("violation reproduced" if rc == 1 else "no violation on the current tree"))
     return rc
